@@ -273,6 +273,21 @@ func (ef *Effects) Roots(v ssa.Value) []Root {
 					add(Root{Kind: RNone}) // a loaded scalar carries no reference
 					return
 				}
+				// a reference loaded out of a local allocation is whatever was stored into that allocation
+				// (m := *em copies em's pointers: memory reached through m is em's memory)
+				if al := baseAlloc(x.X); al != nil {
+					n := 0
+					for _, st := range storesInto(al) {
+						if pointerLike(st.Val.Type()) {
+							n++
+							walk(st.Val)
+						}
+					}
+					if n == 0 {
+						add(Root{Kind: RLocal})
+					}
+					return
+				}
 				walk(x.X)
 				return
 			}
@@ -319,6 +334,9 @@ func (ef *Effects) Roots(v ssa.Value) []Root {
 				return
 			}
 			if callee := x.Call.StaticCallee(); callee != nil {
+				if o := callee.Origin(); o != nil && ef.Funcs[o] != nil {
+					callee = o
+				}
 				if fe := ef.Funcs[callee]; fe != nil {
 					if fe.ReturnsFresh {
 						add(Root{Kind: RLocal})
@@ -509,6 +527,9 @@ func (ef *Effects) direct(fn *ssa.Function) {
 				}
 				cs := CallSite{Instr: x}
 				if callee := cc.StaticCallee(); callee != nil {
+					if o := callee.Origin(); o != nil && ef.Funcs[o] != nil {
+						callee = o // an instance of a generic function of the module: use the generic body
+					}
 					if ef.Funcs[callee] != nil {
 						cs.Callee = callee
 					} else {
@@ -720,4 +741,55 @@ func (ef *Effects) Describe(w Write) string {
 		via = " via " + strings.Join(w.Via, " -> ")
 	}
 	return fmt.Sprintf("%s to %s%s in %s at %s%s", w.Kind, w.Root, f, w.Fn.String(), ef.f.Prog.Pos(w.Pos), via)
+}
+
+// baseAlloc strips field/index addressing from an address and returns the local allocation it is based on.
+func baseAlloc(v ssa.Value) *ssa.Alloc {
+	for {
+		switch x := v.(type) {
+		case *ssa.Alloc:
+			return x
+		case *ssa.FieldAddr:
+			v = x.X
+		case *ssa.IndexAddr:
+			v = x.X
+		default:
+			return nil
+		}
+	}
+}
+
+// storesInto lists the stores into a local allocation or into any of its fields/elements.
+func storesInto(al *ssa.Alloc) []*ssa.Store {
+	var out []*ssa.Store
+	seen := map[ssa.Value]bool{}
+	var visit func(addr ssa.Value)
+	visit = func(addr ssa.Value) {
+		if seen[addr] {
+			return
+		}
+		seen[addr] = true
+		refs := addr.Referrers()
+		if refs == nil {
+			return
+		}
+		for _, r := range *refs {
+			switch x := r.(type) {
+			case *ssa.Store:
+				if x.Addr == addr {
+					out = append(out, x)
+				}
+			case *ssa.FieldAddr:
+				if x.X == addr {
+					visit(x)
+				}
+			case *ssa.IndexAddr:
+				if x.X == addr {
+					visit(x)
+				}
+			}
+		}
+	}
+	visit(al)
+	return out
 }
